@@ -5,7 +5,7 @@ import ast
 
 from .. import census
 from ..facets.dep import Dep
-from ..facets.lenclass import LenClass, is_def
+from ..facets.lenclass import LenClass, TOP, is_def
 from ..ir import walk
 from ..loader import AnalysisError
 from .common import call_args, is_ext_call
@@ -153,8 +153,10 @@ def run(ck, ctx):
                         continue
                     c = lc.of(I.snapshot(v, st))
                     n += 1
-                    ck.ob("R14.3", f"[{label}] column {name} has one row per surviving trajectory", c == ref and
-                          is_def(c), v, func, f"{lc.show(c)} vs geometry selection {lc.show(ref)}")
+                    # an unknown population is undecided (a construct the population facet cannot read), never a verdict
+                    ck.ob("R14.3", f"[{label}] column {name} has one row per surviving trajectory",
+                          None if c == TOP else (c == ref and is_def(c)), v, func,
+                          f"{lc.show(c)} vs geometry selection {lc.show(ref)}")
             ck.floor("R14.3", n, 14, f"stored columns in {label} mode")
     ck.guard(r143, "R14.3")
 
